@@ -41,6 +41,17 @@ Script ==
     [] ScriptName = "inner_pending_partial" ->
          << <<"gen", 1, Up(1)>>, <<"gen", 2, Up(1)>>, <<"gen", 2, [c |-> "rm", k |-> 1]>>,
             <<"dlv", 3, 1>>, <<"dlv", 3, 2>>, <<"gen", 3, [c |-> "up", k |-> 1, sub |-> [c |-> "rm", k |-> 1]]>> >>
+    \* three key removes built from ONE whole-map read (same clock) for keys k1 < k2 < k3, issued outer keys first
+    [] ScriptName = "three_key_removes" ->
+         << <<"gen", 1, Up(2)>>, <<"dlv", 2, 1>>,
+            <<"gen", 2, [c |-> "rmv", k |-> 1]>>, <<"gen", 2, [c |-> "rmv", k |-> 3]>>, <<"gen", 2, [c |-> "rmv", k |-> 2]>> >>
+    \* a pending remove holding two keys under one clock, then a strictly newer remove of one of them,
+    \* with an update of the OTHER key between the two clocks
+    [] ScriptName = "newer_remove_of_one_key" ->
+         << <<"gen", 1, Up(1)>>, <<"gen", 1, Up(2)>>, <<"dlv", 2, 1>>, <<"dlv", 2, 2>>,
+            <<"gen", 2, [c |-> "rmv", k |-> 1]>>, <<"gen", 2, [c |-> "rmv", k |-> 2]>>,
+            <<"gen", 1, Up(2)>>, <<"gen", 1, Up(1)>>, <<"dlv", 2, 5>>, <<"dlv", 2, 6>>,
+            <<"gen", 2, [c |-> "rmv", k |-> 1]>> >>
 ScriptInit == InitAfter(Script)
 
 \* JSON-friendly renderings: partial functions over Keys become total sequences of 0/1-element tuples
